@@ -383,3 +383,28 @@ Proof.
     assert (F : nth_error ex_frames 1 = Some f) by exact Hn.
     vm_compute in F. injection F as <-. vm_compute. reflexivity.
 Qed.
+
+(** * After a reset (Close/Open, a new process, or ResetLocalState since /repo a3c8cc9) the sync state
+      is zero.  Then the ONLY incremental answer verify can give is "same generation, from the cursor,
+      with the frame in front of the cursor recognised" — whatever baseline the level-0 chain was cut
+      back to: a truncated or restarted WAL is always snapshotted. *)
+From LS Require Import Db.Proofs.
+
+Theorem verify_fresh_incremental_only_same_generation_lemma : forall ps pos last w fd info,
+  Verify.verify ps pos last false 0 (Some w) fd = VOk info -> i_snap info = false ->
+  let off := (l_off last + l_size last)%N in
+  let fsz := (ps + WALFrameHeaderSize)%N in
+  (off <= N.of_nat (length w))%N /\
+  N.eqb (be32 w 16) (l_s1 last) && N.eqb (be32 w 20) (l_s2 last) = true /\
+  i_offset info = off /\
+  (off = WALHeaderSize \/ (off - fsz)%N = WALHeaderSize \/
+   exists d, fd = Some d /\
+     last_page_match last (be32 w (N.to_nat (off - fsz))) (be32 w (N.to_nat (off - fsz) + 8))
+                     (be32 w (N.to_nat (off - fsz) + 12)) d = true).
+Proof.
+  intros ps pos last w fd info H Hs.
+  destruct (verify_incremental_evidence_lemma ps pos last false 0 w fd info H Hs) as [_ [A|[B|C]]].
+  - destruct A as [_ [A _]]. discriminate.
+  - destruct B as [B1 [B2 [B3 B4]]]. repeat split; assumption.
+  - destruct C as [_ [_ [C _]]]. exfalso. apply C. reflexivity.
+Qed.
